@@ -20,7 +20,7 @@ Line-protocol driver for C10 (requests and responses are flat int lists, see `ha
                                         `_stereo_cis_trans_centers`, `_stereo_allenes_terminals` of the model)
   packf <mol>                       -> ok <bytes>   (`packFull`: terminals from the model's own perception; the nterm part of <mol> is ignored)
   unpackf <bytes>                   -> ok <decoded> (`unpackFull`: decoder + perception of the decoded molecule + re-attachment)
-  phyp <mol>                        -> ok t k d   (terminals of <mol> = perceived terminals; `marksOKb`; `keysDisjointb`)
+  phyp <mol>                        -> ok t k d h (terminals of <mol> = perceived terminals; `marksOKb`; `keysDisjointb`; `noHyperDoubleb`)
   f16 <neg> <m> <e>                 -> ok <bits>
   f16d <bits>                       -> ok <neg> <m> <e>
 
@@ -164,7 +164,7 @@ def handle (line : String) : String :=
           | .ok p =>
             let sp := p.stereogenic.map (·.1)
             let b (x : Bool) := if x then "1" else "0"
-            s!"ok {b (m.terminals == p.terminals)} {b (marksOKb m.atoms sp)} {b (keysDisjointb sp)}"
+            s!"ok {b (m.terminals == p.terminals)} {b (marksOKb m.atoms sp)} {b (keysDisjointb sp)} {b (noHyperDoubleb m.atoms)}"
           | .error e => "err " ++ e.toString
         | _ => "err parse"
       | "unpack" => showRes showDecoded (decode (bytesOf xs))
